@@ -318,6 +318,312 @@ theorem dispatch_guard_exact :
     dispatchGuard.all (fun g => hasSub g "ongoing < s.concurrency" && !hasSub g "||") = true := by
   decide
 
+/-! ### Scheduler wiring: the mechanism flags of `Sched.Wiring` (C01 C03 C05 C06 C07 C08 C09)
+
+`Sched.Wiring.std` says what the code does; every theorem about the scheduler
+model is about `std`, and for each flag the model has a counter-example showing
+what breaks when it is off.  The obligations below tie each flag to the code:
+the extractor (`harness/cmd/extract/schedwiring.go`) reports the Scheduler Loop,
+the worker, `Wait` and `Enqueue` as ordered marker lists (`name` or
+`name:detail`, see `Extracted.SelArm`); every mechanism is stated as a property
+over the marker NAMES (so that renaming a local, or replacing `container/list`
+by a slice, does not trip it), and every list is pinned by name (so that a new
+statement shows up for review: it is an `unknown:` marker or a new name).
+
+| flag                    | obligation                                   |
+|-------------------------|----------------------------------------------|
+| `gateDispatch`          | `dispatch_guard_exact`, `ready_arm_gated`    |
+| `capDone`               | `chan_caps`, `loop_channel_caps`             |
+| `drainOnExit`           | `drain_on_exit`                              |
+| `respawn`               | `worker_respawns`                            |
+| `workerChecksCtx`       | `worker_checks_ctx`                          |
+| `workerChecksInvalid`   | `worker_checks_invalid`                      |
+| `waitSelectsCtx`        | `wait_selects_ctx`                           |
+| `lateEnqueueChecksDone` | `late_enqueue_checks_done`                   |
+| `filterSentinel`        | `sentinel_filtered`                          |
+-/
+
+/-- The name of a marker: the text before the first `:`. -/
+def markName (s : String) : List Char := s.toList.takeWhile (· != ':')
+/-- The detail of a marker: the text after the first `:`. -/
+def markDetail (s : String) : List Char := (s.toList.dropWhile (· != ':')).drop 1
+def names (l : List String) : List (List Char) := l.map markName
+/-- Marker names as character lists (strings are compared as lists so that the
+kernel can evaluate the comparison). -/
+def nm (l : List String) : List (List Char) := l.map String.toList
+/-- The markers named `n`. -/
+def marked (n : String) (l : List String) : List String := l.filter (fun s => markName s == n.toList)
+/-- Exactly one marker is named `n`, and its detail satisfies `p`. -/
+def oneMarked (n : String) (l : List String) (p : String → Bool) : Bool :=
+  (marked n l).length == 1 && (marked n l).all p
+def hasName (n : String) (l : List String) : Bool := (names l).contains n.toList
+/-- The names before the first marker named `n`. -/
+def namesBefore (n : String) (l : List String) : List (List Char) :=
+  (names l).takeWhile (· != n.toList)
+def noUnknown (l : List String) : Bool := l.all (fun s => !hasPrefix s "unknown")
+
+/-- The source text playing `role` in the Scheduler Loop (`""` when the extractor did not find it). -/
+def role (r : String) : List Char := ((loopRoles.lookup r).getD "").toList
+def armsOf (k : String) : List SelArm := loopSelectArms.filter (fun a => a.kind == k)
+
+/-- Capacity of the channel made for the Scheduler field `s.<f>`. -/
+def capOfField (t : List Char) : Option String :=
+  (schedFieldInits.find? (fun p => "s.".toList ++ p.1.toList == t)).bind (fun p => chanCaps.lookup p.2)
+
+set_option maxRecDepth 4096 in -- marker texts are long strings
+/-- **C01 C03 C05 C06 C07 C08 C09.** The extractor recognised every statement
+of the Scheduler Loop's arms and exits, of the worker, of `Wait` and of
+`Enqueue`: nothing was emitted as `unknown`. -/
+theorem wiring_no_unknown :
+    (loopSelectArms.all (fun a => a.kind != "unknown" && noUnknown [a.comm] && noUnknown a.disabledWhen) &&
+     noUnknown loopAfterFor && noUnknown loopExitConds && noUnknown resultArmShape &&
+     noUnknown enqueueArmShape && noUnknown workerShape && noUnknown waitShape &&
+     noUnknown enqueueShape) = true := by
+  decide
+
+set_option maxRecDepth 4096 in -- marker texts are long strings
+/-- **C05 C06 C09.** The select of the Scheduler Loop has exactly the four arms
+of the model (`loopDispatch`, `loopEnq`/`loopEnqClosed`, `loopResult`,
+`loopTick`): one send, one two-value receive, one value receive, one bare
+receive, and no `default` (the loop blocks instead of spinning).  A new arm (a
+respawn request channel, a second result channel) shows up here. -/
+theorem loop_arm_kinds :
+    loopSelectArms.map (·.kind) = ["send", "recvOk", "recvVal", "recv"] := by
+  decide
+
+set_option maxRecDepth 4096 in -- marker texts are long strings
+/-- **C05 C06 C19.** (`capDone`, channel geometry.)  The channels the arms use
+are the fields of the Scheduler, with the capacities the model assumes: results
+are read from the channel of capacity `Concurrency`, jobs are dispatched on the
+unbuffered channel, enqueues are read from the channel of capacity 1. -/
+theorem loop_channel_caps :
+    capOfField (role "resultChan") = some "c.Concurrency" ∧
+    capOfField (role "readySrc") = some "0" ∧
+    capOfField (role "enqueueSrc") = some "1" := by
+  decide
+
+set_option maxRecDepth 4096 in -- marker texts are long strings
+/-- **C06 C19.** (`gateDispatch`.)  The dispatch arm sends on a local channel
+variable which is nil exactly when the dispatch guard (pinned by
+`dispatch_guard_exact`) is false: set to nil in the `else` of that one `if`,
+nowhere else. -/
+theorem ready_arm_gated :
+    (armsOf "send").length = 1 ∧
+    (armsOf "send").all (fun a =>
+      a.chanIsLocalNilable && a.chan.toList == role "readyChan" &&
+      nm a.disabledWhen == dispatchGuard.map (fun g => "nil-if:!(".toList ++ g.toList ++ ")".toList)) = true := by
+  decide
+
+set_option maxRecDepth 4096 in -- marker texts are long strings
+/-- **C05 C09.** The enqueue arm is disabled only once the enqueue channel is
+closed: its channel operand is a local that is set to nil in exactly one place,
+`if !ok { ch = nil }` of this very arm.  (Any other condition, e.g.
+back-pressure while the ready queue is long, parks the caller inside `Enqueue`
+where neither a failure nor a cancelled context can reach it.) -/
+theorem enqueue_arm_disabled_only_when_closed :
+    (armsOf "recvOk").length = 1 ∧
+    (armsOf "recvOk").all (fun a =>
+      a.chanIsLocalNilable && a.chan.toList == role "enqueueChan" &&
+      nm a.disabledWhen == ["closed:".toList ++ a.chan.toList]) = true := by
+  decide
+
+set_option maxRecDepth 4096 in -- marker texts are long strings
+/-- **C05 C09.** Every other arm is unconditional: the result arm receives
+straight from the Scheduler's result channel (no nil-able local in between), so
+a posted result is always accepted; the ticker arm is off only when there is no
+emitter (`Cfg.emit`). -/
+theorem other_arms_unconditional :
+    loopSelectArms.all (fun a =>
+      a.kind == "send" || a.kind == "recvOk" ||
+      (a.kind == "recvVal" && !a.chanIsLocalNilable && a.disabledWhen.isEmpty) ||
+      (a.kind == "recv" && !a.disabledWhen.isEmpty &&
+        a.disabledWhen.all (fun d =>
+          hasPrefix d "nil-unless:" && hasSub d "emitter != nil" && !hasSub d "&&" && !hasSub d "||"))) = true := by
+  decide
+
+set_option maxRecDepth 4096 in -- marker texts are long strings
+/-- **C05.** (`drainOnExit`.)  When the Scheduler Loop's function exits it
+drains the enqueue channel (`for range s.enqueuec {}`, unconditionally), then
+closes the ready channel, then closes `finishedc`: `Wait` is released only after
+every pending `Enqueue` has been, and the channel drained is the one `Enqueue`
+sends on. -/
+theorem drain_on_exit :
+    listHasSub (nm ["drain", "closeReady", "closeFinished"]) (names loopAfterFor) = true ∧
+    oneMarked "drain" loopAfterFor (fun d => markDetail d == role "enqueueSrc") = true := by
+  decide
+
+set_option maxRecDepth 4096 in -- marker texts are long strings
+/-- **C05 C06.** Pin-down: everything that runs at the exit of the Scheduler
+Loop's function, in execution order (the ticker is stopped only if one was
+started). -/
+theorem loop_after_for_exact :
+    names loopAfterFor = nm ["cond-stopTicker", "drain", "closeReady", "closeFinished"] := by
+  decide
+
+set_option maxRecDepth 4096 in -- marker texts are long strings
+/-- **C05.** One enqueue channel: `Enqueue` sends on, `Wait` closes, the loop
+receives from (through its local) and drains the same field; `Wait` waits on
+the channel the loop closes last. -/
+theorem enqueue_channel_consistent :
+    oneMarked "closeEnqueue" waitShape (fun d => markDetail d == role "enqueueSrc") = true ∧
+    oneMarked "send" enqueueShape (fun d => (role "enqueueSrc" ++ " <- ".toList).isPrefixOf (markDetail d)) = true ∧
+    (marked "finished" waitShape).map markDetail = (marked "closeFinished" loopAfterFor).map markDetail ∧
+    (marked "finished" waitShape).length = 1 := by
+  decide
+
+set_option maxRecDepth 4096 in -- marker texts are long strings
+/-- **C05.** `Enqueue`'s send is unconditional: a plain send statement, not an
+arm of a select (an `Enqueue` that gives up, e.g. on `ctx.Done()`, returns a
+handle of a job the loop never sees; a dependant then waits for ever). -/
+theorem enqueue_send_unconditional :
+    hasName "selectAroundSend" enqueueShape = false ∧
+    listHasSub (nm ["mkJob", "send", "returns"]) (names enqueueShape) = true := by
+  decide
+
+set_option maxRecDepth 4096 in -- marker texts are long strings
+/-- **C05.** Pin-down: the statements of `Enqueue`. -/
+theorem enqueue_shape_exact :
+    names enqueueShape = nm ["mkJob", "send", "returns"] := by
+  decide
+
+set_option maxRecDepth 4096 in -- marker texts are long strings
+/-- **C07 C05.** The loop is left in exactly two ways: the fail-fast exit of the
+result arm (an error result and `!s.continueOnError`), and the check at the
+bottom of the body, `pending == 0 && enqueuec == nil` over the loop's own
+counter and enqueue-channel local (`Loop.exitCheck`).  A third exit (e.g. an
+early return under continue-on-error) or a weaker condition shows up here. -/
+theorem loop_exits :
+    loopExitConds.length = 2 ∧
+    oneMarked "recvVal" loopExitConds (fun c =>
+      hasSub c "!= nil) && (!s.continueOnError)" && !hasSub c "||") = true ∧
+    oneMarked "loop" loopExitConds (fun c =>
+      markDetail c == "(".toList ++ role "pending" ++ " == 0 && ".toList ++ role "enqueueChan" ++ " == nil)".toList) = true := by
+  decide
+
+set_option maxRecDepth 4096 in -- marker texts are long strings
+/-- **C01 C07 C08.** The result arm does what `Loop.result` does, in this
+order: mark the job done, decrement `pending` and `ongoing`; on an error record
+it in the job, leave at once unless continue-on-error (recording that error
+alone), else append it through the sentinel filter and mark the direct
+consumers invalid; then, error or not, notify the consumers.  This is also the
+pin-down of the arm: any other statement is an `unknown` marker. -/
+theorem result_arm_exact :
+    names resultArmShape =
+      nm ["bindJob", "setDone", "pendingDec", "ongoingDec", "errBranch", "setErr",
+          "errRecordFailFast", "sentinelFilter", "markInvalid", "errBranchEnd", "notify"] := by
+  decide
+
+set_option maxRecDepth 4096 in -- marker texts are long strings
+/-- **C07 C08.** The fail-fast exit is taken exactly when continue-on-error is
+off (`if !c.coe` of `Loop.result`). -/
+theorem failfast_condition :
+    oneMarked "errRecordFailFast" resultArmShape (fun d => markDetail d == "!s.continueOnError".toList) = true := by
+  decide
+
+set_option maxRecDepth 4096 in -- marker texts are long strings
+/-- **C08.** (`filterSentinel`.)  Under continue-on-error an error is appended
+to the scheduler's error unless it is the sentinel `errJobInvalid`, and for no
+other reason: the guard is exactly one negated `errors.Is(_, errJobInvalid)`
+(no further conjunct such as a de-duplication test), and there is no unguarded
+append. -/
+theorem sentinel_filtered :
+    oneMarked "sentinelFilter" resultArmShape (fun d =>
+      hasPrefix d "sentinelFilter:!errors.Is(" && hasSub d ", errJobInvalid)" &&
+      !hasSub d "&&" && !hasSub d "||") = true ∧
+    hasName "appendErr" resultArmShape = false := by
+  decide
+
+set_option maxRecDepth 4096 in -- marker texts are long strings
+/-- **C05 C08.** (`lateEnqueueChecksDone`.)  Registering a job, the loop skips
+a dependency that has already run (`if dep.done { ...; continue }`) instead of
+waiting for a notification that will never come, and in that branch marks the
+job invalid if the dependency failed; only otherwise does it register as a
+consumer and count the dependency. -/
+theorem late_enqueue_checks_done :
+    listHasSub (nm ["forDeps", "depDoneCheck", "depErrInvalidates", "depSkip",
+                    "addConsumer", "remainingInc", "endDeps"]) (names enqueueArmShape) = true := by
+  decide
+
+set_option maxRecDepth 4096 in -- marker texts are long strings
+/-- **C05 C07 C08.** Pin-down of the enqueue arm (`Loop.closed`, `Loop.enq`):
+on close only the channel local is cleared; otherwise dependencies are
+registered, `pending` is incremented, and the job goes to the ready queue iff
+it waits for nothing. -/
+theorem enqueue_arm_exact :
+    names enqueueArmShape =
+      nm ["closedSetsNil", "forDeps", "depDoneCheck", "depErrInvalidates", "depSkip",
+          "addConsumer", "remainingInc", "endDeps", "pendingInc", "readyIfZero", "waitingInc"] := by
+  decide
+
+set_option maxRecDepth 4096 in -- marker texts are long strings
+/-- **C03 C05 C06.** (`respawn`.)  A worker that dies inside a job (its loop
+did not end cleanly) posts the failure of the job it held and then starts its
+own replacement, unconditionally and itself (`go worker(readyc, donec)` with
+its own channels; not through the Scheduler Loop, which may already have
+exited, and not depending on a context). -/
+theorem worker_respawns :
+    listHasSub (nm ["defer", "deferGuard", "deferPost", "respawn", "endDefer"]) (names workerShape) = true ∧
+    (marked "respawn" workerShape).length = 1 := by
+  decide
+
+set_option maxRecDepth 4096 in -- marker texts are long strings
+/-- **C09.** (`workerChecksCtx`.)  The worker runs a job only in the last
+branch of a chain whose first test is `j.ctx.Err() != nil` (the job's own
+context), which skips the job with that error. -/
+theorem worker_checks_ctx :
+    oneMarked "ctxCheck" workerShape (fun d => hasSub d ".ctx.Err()" && hasSub d "!= nil") = true ∧
+    (namesBefore "run" workerShape).contains "ctxSkip".toList = true ∧
+    hasName "run" workerShape = true ∧ hasName "runUnguarded" workerShape = false := by
+  decide
+
+set_option maxRecDepth 4096 in -- marker texts are long strings
+/-- **C01 C08.** (`workerChecksInvalid`.)  Before running a job the worker
+tests its `invalid` mark (the field the loop sets) and skips it with the
+sentinel `errJobInvalid`. -/
+theorem worker_checks_invalid :
+    oneMarked "invalidCheck" workerShape (fun d => hasSub d ".invalid" && !hasSub d "!") = true ∧
+    oneMarked "invalidSkip" workerShape (fun d => hasSub d "= errJobInvalid") = true ∧
+    (namesBefore "run" workerShape).contains "invalidSkip".toList = true := by
+  decide
+
+set_option maxRecDepth 4096 in -- marker texts are long strings
+/-- **C01 C08 C09.** The order of the worker's tests is the one of
+`workerDecide`: context first, then invalid, then run (a cancelled job reports
+the context error even if it is also invalid), and the result is posted after
+the job is no longer the current one. -/
+theorem worker_check_order :
+    listHasSub (nm ["ctxCheck", "ctxSkip", "invalidCheck", "invalidSkip", "run", "clearCurrent", "post"])
+      (names workerShape) = true := by
+  decide
+
+set_option maxRecDepth 4096 in -- marker texts are long strings
+/-- **C01 C03 C06 C08 C09.** Pin-down of the worker. -/
+theorem worker_shape_exact :
+    names workerShape =
+      nm ["defer", "deferGuard", "deferPost", "respawn", "endDefer",
+          "rangeReady", "mkResult", "setCurrent", "ctxCheck", "ctxSkip", "invalidCheck",
+          "invalidSkip", "run", "clearCurrent", "post", "endRange", "markCleanExit"] := by
+  decide
+
+set_option maxRecDepth 4096 in -- marker texts are long strings
+/-- **C09.** (`waitSelectsCtx`.)  After closing the enqueue channel `Wait`
+selects between its context and the loop's exit, and on the context it returns
+the context's error at once (`callerRetCtx`), nothing else. -/
+theorem wait_selects_ctx :
+    listHasSub (nm ["closeEnqueue", "select", "ctxDone", "returns", "finished", "returns", "endSelect"])
+      (names waitShape) = true ∧
+    listHasSub ["ctxDone:ctx.Done()", "returns:ctx.Err()"] waitShape = true := by
+  decide
+
+set_option maxRecDepth 4096 in -- marker texts are long strings
+/-- **C05 C07 C09.** Pin-down of `Wait`: on the loop's exit it returns the
+scheduler's error, or the context's error if there is none (`callerRetFin`). -/
+theorem wait_shape_exact :
+    waitShape =
+      [ "closeEnqueue:s.enqueuec", "select", "ctxDone:ctx.Done()", "returns:ctx.Err()",
+        "finished:s.finishedc", "returns:s.err ?: ctx.Err()", "endSelect" ] := by
+  decide
+
 /-! ### Structure of the template text (C04 C05 C06 C07 C10 C11 C18)
 
 The generated code of a directive is `func() (err error) { <prologue>; <root
@@ -656,6 +962,220 @@ theorem end_job_deps_known :
     elemJobCollect =
       [ ("parallel/map.go.tmpl", "[if .MapEndFn] {{$t}}Jobs = append({{$t}}Jobs,"),
         ("parallel/slice.go.tmpl", "[if .SliceEndFn] {{$t}}Jobs[idx] =") ] := by
+  decide
+
+-- ==== P28 ownership ====
+/-! ### C12 C01 C03 C06 C19 - who touches what in package scheduler
+
+The scheduler is lock-free because all bookkeeping is done by one goroutine, the
+Scheduler Loop.  `CffVerif/Sched/Own.lean` proves that discipline for the MODEL
+(`C12_loop_state_owner`, `C12_loop_touches_workers_only_by_handoff`,
+`C12_invalid_written_before_handoff`); the obligations below check that the
+SOURCE has the shape the model assumes: which goroutine kind ("thread") may run
+which function, and which function touches which field (`Extracted.FieldAccess`,
+`fnThreads`).  A field access is judged by the THREADS of its context, not by the
+name of the function: moving code of the loop into a helper that only the loop
+calls keeps every obligation true; the same code called from `Wait` falsifies
+them.  Names of locals do not occur.  What is pinned by name: the functions that
+are goroutine roots (`Scheduler.run`, `worker`, the literal of `Config.New`) and
+the fields. -/
+
+/-- The Scheduler Loop: the goroutine running `(*Scheduler).run`. -/
+def loopT : String := "Scheduler.run"
+/-- The worker goroutines (initial and replacement workers). -/
+def workerT : String := "worker"
+/-- The goroutine of the user: `Config.New`, `Enqueue`, `Wait`. -/
+def callerT : String := "caller"
+/-- The goroutine `Config.New` starts to spawn the workers. -/
+def spawnerT : String := "Config.New:go"
+
+/-- The threads a context may run on (`[]`: none known, treated as unknown). -/
+def threadsOf (fn : String) : List String :=
+  match fnThreads.find? (fun e => e.1 == fn) with
+  | some e => e.2
+  | none => []
+
+/-- The context runs on at least one thread, and only on threads of `allowed`. -/
+def runsOnlyOn (allowed : List String) (fn : String) : Bool :=
+  !(threadsOf fn).isEmpty && (threadsOf fn).all (fun t => allowed.contains t)
+
+def accessesOf (strct : String) : List FieldAccess := fieldAccesses.filter (fun a => a.struct == strct)
+
+/-- **C03 C06 C12 C19.** The `go` statements of package scheduler and of the root
+package, exactly: `Config.New` starts the spawner literal and the loop; the
+spawner starts the workers; a dying worker's deferred literal starts its
+replacement.  Nothing else starts a goroutine: no goroutine per emit (a
+`go` in the emitter adapter or in the ticker arm reorders / piles up state
+reports), none per job, none in `Enqueue` / `Wait`.  A `go` on a function value
+or on a function outside the package is a `dynamic:` / `extern:` entry. -/
+theorem own_goroutine_roots :
+    goroutineRoots =
+      [ ("Config.New", "Config.New:go"), ("Config.New", "Scheduler.run"),
+        ("Config.New:go", "worker"), ("worker:defer", "worker") ] := by
+  decide
+
+/-- **C12.** Every function context of package scheduler runs on threads the
+model knows (caller, loop, worker, spawner; `init` for package variables), none
+of them `unknown` (a func literal that is stored or passed on, a function used as
+a value); the three roots run on their own thread only and the API on the
+caller's; and every context that touches a field runs on some thread. -/
+theorem own_threads_known :
+    fnThreads.all (fun e => e.2.all (fun t => [callerT, loopT, workerT, spawnerT, "init"].contains t)) = true ∧
+    threadsOf "Scheduler.run" = [loopT] ∧ threadsOf "worker" = [workerT] ∧
+    threadsOf "Config.New:go" = [spawnerT] ∧
+    ["Config.New", "Scheduler.Enqueue", "Scheduler.Wait"].all (fun f => threadsOf f == [callerT]) = true ∧
+    fieldAccesses.all (fun a => !(threadsOf a.fn).isEmpty && a.kind != "unknown") = true := by
+  decide
+
+/-- Escapes reviewed by hand: (struct, field, callee).
+* the loop keeps ready jobs in a `container/list`; the list is a local of `run`,
+  so the pointer stays with the loop. -/
+def reviewedEscapes : List (String × String × String) :=
+  [ ("ScheduledJob", "*", "(*container/list.List).PushBack") ]
+
+set_option maxRecDepth 4096 in
+/-- **C12.** No field of a scheduler struct has its address taken or is re-sliced
+(an alias through which another goroutine, or the caller, could write), and no
+pointer to a `ScheduledJob` / `Scheduler` is handed to code outside the package,
+except the reviewed escapes, and those only on the loop's thread. -/
+theorem own_no_escape :
+    (fieldAccesses.filter (fun a => a.kind == "escape")).all (fun a =>
+      reviewedEscapes.contains (a.struct, a.field, a.detail) && runsOnlyOn [loopT] a.fn) = true := by
+  decide
+
+/-- The fields of a job that are set once by `Enqueue` and never change. -/
+def jobImmutable : List String := ["ctx", "run", "deps"]
+
+set_option maxRecDepth 4096 in
+/-- **C12 C01.** The bookkeeping fields of a job (`remaining`, `consumers`, `done`,
+`err`, and any field added later: everything but `ctx`, `run`, `deps`,
+`invalid`) are read and written on the loop's thread only - not by workers, not
+by `Enqueue` / `Wait`, not even initialised by `Enqueue` (`step_nonloop_frame`:
+non-loop actions leave the loop state alone). -/
+theorem own_job_bookkeeping_loop_only :
+    (accessesOf "ScheduledJob").all (fun a =>
+      jobImmutable.contains a.field || a.field == "invalid" || a.field == "*" ||
+      ((a.kind == "read" || a.kind == "write") && runsOnlyOn [loopT] a.fn)) = true := by
+  decide
+
+set_option maxRecDepth 4096 in
+/-- **C12.** `invalid` is the one loop-owned field a worker reads.  It is written on
+the loop's thread only, and only in the select arms that process a new job
+(`recv Scheduler.enqueuec`: the job itself, before it is put on the ready list)
+or a result (`recv Scheduler.donec`: the consumers of the finished job, which
+still wait for it) - never in the arm handing a job to a worker, never outside the
+select: `C12_invalid_written_before_handoff`.  It is read only by the loop and by
+workers.  (A write moved into a helper has `arm = ""` and is looked at again.) -/
+theorem own_job_invalid :
+    ((accessesOf "ScheduledJob").filter (fun a => a.field == "invalid")).all (fun a =>
+      (a.kind == "write" && runsOnlyOn [loopT] a.fn &&
+        (a.arm == "recv:Scheduler.enqueuec" || a.arm == "recv:Scheduler.donec")) ||
+      (a.kind == "read" && runsOnlyOn [loopT, workerT] a.fn)) = true := by
+  decide
+
+set_option maxRecDepth 4096 in
+/-- **C12.** `ctx`, `run`, `deps` are initialised by the caller (in `Enqueue`'s
+composite literal, before the job is sent on `enqueuec`) and afterwards only
+read, by the loop and the workers.  Nobody assigns to them. -/
+theorem own_job_immutable :
+    ((accessesOf "ScheduledJob").filter (fun a => jobImmutable.contains a.field)).all (fun a =>
+      (a.kind == "init" && runsOnlyOn [callerT] a.fn) ||
+      (a.kind == "read" && runsOnlyOn [loopT, workerT] a.fn)) = true := by
+  decide
+
+/-- **C12.** What `Enqueue` initialises a job with, exactly: the caller's context,
+`Job.Run`, and `Job.Dependencies` itself - not a slice derived from it (filtering
+the dependencies "in place" writes into the caller's backing array while the
+loop may be reading the same array through an earlier job's `deps`). -/
+theorem own_job_inits :
+    structInits.filter (fun e => e.1 == "ScheduledJob") =
+      [ ("ScheduledJob", "ctx", "param:context.Context"),
+        ("ScheduledJob", "deps", "Job.Dependencies"),
+        ("ScheduledJob", "run", "Job.Run") ] := by
+  decide
+
+set_option maxRecDepth 4096 in
+/-- **C12.** A worker touches a job only by reading `ctx`, `invalid`, `run` (of the job
+it received over `readyc`): stated for every context that may run on a worker's
+thread, so a helper called from `worker` is covered. -/
+theorem own_worker_reads_only :
+    ((accessesOf "ScheduledJob").filter (fun a => (threadsOf a.fn).contains workerT)).all (fun a =>
+      a.kind == "read" && ["ctx", "invalid", "run"].contains a.field) = true := by
+  decide
+
+set_option maxRecDepth 4096 in
+/-- **C12.** Fields of the `Scheduler`: everything but `err` is set by `Config.New`'s
+composite literal (on the caller's thread, before the loop is started) and never
+assigned afterwards.  `err` is written on the loop's thread only; it is read by
+the loop, and by the caller only inside the select arm `<-s.finishedc` of `Wait`,
+i.e. after the loop has exited (`close(finishedc)` is the loop's last action):
+a read of `s.err` before the select or in the `ctx.Done()` arm races with the loop. -/
+theorem own_sched_fields :
+    (accessesOf "Scheduler").all (fun a =>
+      if a.field == "err" then
+        ((a.kind == "write" || a.kind == "read") && runsOnlyOn [loopT] a.fn) ||
+        (a.kind == "read" && runsOnlyOn [callerT] a.fn && a.arm == "recv:Scheduler.finishedc")
+      else
+        (a.kind == "init" && runsOnlyOn [callerT] a.fn) ||
+        (a.kind == "read" && runsOnlyOn [callerT, loopT] a.fn)) = true := by
+  decide
+
+/-- **C12.** The caller does wait for the loop that way: some read of `s.err` sits in
+the `<-s.finishedc` arm (non-vacuity of the exception above). -/
+theorem own_wait_reads_err_after_finished :
+    fieldAccesses.any (fun a =>
+      a.struct == "Scheduler" && a.field == "err" && a.kind == "read" &&
+      runsOnlyOn [callerT] a.fn && a.arm == "recv:Scheduler.finishedc") = true := by
+  decide
+
+/-- **C01 C12 C19.** The fields of `ScheduledJob` and `Scheduler` and their types,
+exactly (a new field is looked at: who owns it?).  `remaining` and `concurrency`
+are `int`, as wide as the model's unbounded `Nat` for any number of jobs that
+fits in memory: with `uint16` the 65536th dependency wraps `remaining` to 0 and
+the job runs before its dependencies. -/
+theorem own_field_types :
+    fieldTypes.filter (fun e => e.1 == "ScheduledJob" || e.1 == "Scheduler") =
+      [ ("ScheduledJob", "consumers", "[]*ScheduledJob"),
+        ("ScheduledJob", "ctx", "context.Context"),
+        ("ScheduledJob", "deps", "[]*ScheduledJob"),
+        ("ScheduledJob", "done", "bool"),
+        ("ScheduledJob", "err", "error"),
+        ("ScheduledJob", "invalid", "bool"),
+        ("ScheduledJob", "remaining", "int"),
+        ("ScheduledJob", "run", "func(context.Context) error"),
+        ("Scheduler", "concurrency", "int"),
+        ("Scheduler", "continueOnError", "bool"),
+        ("Scheduler", "donec", "<-chan jobResult"),
+        ("Scheduler", "enqueuec", "chan *ScheduledJob"),
+        ("Scheduler", "err", "error"),
+        ("Scheduler", "finishedc", "chan struct{}"),
+        ("Scheduler", "readyc", "chan<- *ScheduledJob") ] := by
+  decide
+
+/-- **C01 C19.** Counters are `int`: every integer-typed local of package scheduler
+(the loop's `pending`, `ongoing`, `waiting` under whatever name, locals of its
+helpers) and every field of the reported `State`; the loop does have its three
+counters.  A narrower type (`int32`, `uint8`) or a named integer type shows up
+with a different type text. -/
+theorem own_counters_int :
+    loopCounterTypes.all (fun e => e.2.2 == "int") = true ∧
+    3 ≤ (loopCounterTypes.filter (fun e => e.1 == "Scheduler.run")).length ∧
+    (fieldTypes.filter (fun e => e.1 == "State")).all (fun e => e.2.2 == "int") = true ∧
+    5 ≤ (fieldTypes.filter (fun e => e.1 == "State")).length := by
+  decide
+
+/-- **C19 C03.** The emitter.  The root package's adapter returns nil for a nil
+emitter and for the no-op emitter, and for nothing else; `NewScheduler` passes
+the adapted emitter to `scheduler.Config`; the loop creates its ticker only under
+`emitter != nil` (so no ticker, and no tick arm ever enabled, without an
+emitter); `Emit` is called on the loop's thread only (state reports are
+sequential and in order).  Nothing went unrecognised. -/
+theorem own_emitter :
+    ["nilForNil", "nilForNop", "configEmitterAdapted", "tickerOnlyIfEmitter"].all
+      (fun mk => emitterAdapter.contains mk) = true ∧
+    emitterAdapter.all (fun mk =>
+      !hasPrefix mk "unknown" && !hasPrefix mk "nilFor:" && mk != "noTicker" &&
+      (!hasPrefix mk "emitOn:" || mk == "emitOn:Scheduler.run")) = true := by
   decide
 
 end Tie
